@@ -875,8 +875,18 @@ class Executor:
             el = e.elts[idx]
             if isinstance(el, ast.Starred):
                 raise Untranslatable("starred tuple element")
-            for v, s2 in self.ev(el, s):
+            # the expected type of the whole tuple gives the expected type of each element (empty containers need one)
+            self.expect_type = want.elt if isinstance(want, Seq) else (
+                want.elts[idx] if isinstance(want, Tup) and idx < len(want.elts) else None)
+            try:
+                outs = list(self.ev(el, s))
+            finally:
+                self.expect_type = want
+            for v, s2 in outs:
                 yield from rec(idx + 1, acc + [v], s2)
+        want = getattr(self, "expect_type", None)
+        if isinstance(want, Opt):
+            want = want.elt
         yield from rec(0, [], st)
 
     def ev_List(self, e, st):
@@ -1102,6 +1112,17 @@ class Executor:
             a, b = self.coerce(l, t, st), self.coerce(r, t, st)
             if a.parts and a.parts[0] == "items" and len(a.parts[1]) == 1:
                 return Val(t, z3.Concat(a.z, b.z), parts=("cons", a.parts[1][0], b))
+            if t.elt.mutable and not self.spec:
+                # a sequence of references: name the result and state the concatenation pointwise with a pattern on its own
+                # positions, so that quantified facts about the elements of either operand are found by e-matching
+                cat = fresh("cat", a.z.sort())
+                i = fresh("ci", z3.IntSort())
+                la, lb = z3.Length(a.z), z3.Length(b.z)
+                st.assume(cat == z3.Concat(a.z, b.z))
+                st.assume(z3.Length(cat) == la + lb)
+                st.assume(z3.ForAll([i], z3.Implies(z3.And(0 <= i, i < la), cat[i] == a.z[i]), patterns=[cat[i]]))
+                st.assume(z3.ForAll([i], z3.Implies(z3.And(la <= i, i < la + lb), cat[i] == b.z[i - la]), patterns=[cat[i]]))
+                return Val(t, cat, parts=("concat", a, b))
             return Val(t, z3.Concat(a.z, b.z), parts=("concat", a, b))
         for x in (l, r):
             if isinstance(x, Val) and isinstance(x.t, Opaque) and x.t.nm == "Expr":
